@@ -415,11 +415,26 @@ def cidr_pairs(rng, family, n):
     return out
 
 
+def raw_const(ident, key, c, special_type):
+    """what Trace_Patterns.tla needs to decide for itself whether two constants denote the same value"""
+    import ipaddress
+    text = "".join(map(chr, c["u"])) if c["t"] == "str" else None
+    if special_type in ("ipv4-addr", "ipv6-addr") and text is not None:
+        net = ipaddress.ip_network(text, strict=False)
+        nbits = 32 if net.version == 4 else 128
+        addr = int(ipaddress.ip_interface(text).ip)             # the address as written (host bits included): the specification does the masking
+        return {"id": ident, "kind": "cidr", "bits": [(addr >> (nbits - 1 - k)) & 1 for k in range(nbits)], "plen": net.prefixlen, "units": []}
+    if special_type is not None and text is not None:
+        return {"id": ident, "kind": "istr", "bits": [], "plen": 0, "units": list(c["u"])}
+    return {"id": ident, "kind": "other", "bits": [], "plen": 0, "units": IP.units(repr(key))}
+
+
 def abstract_pair(p, q):
     """rename paths and constants of two patterns into the vocabulary of spec/PatternSem.tla, jointly and injectively.  Sound for patterns that use only =, != and IN on one object
     type: such comparisons depend only on which constants are the same value, and every abstract observation has a real counterpart.  Returns (p', q') or None."""
     special = {(t, json.dumps(st)) for t, st in SPECIAL_PATHS}
     paths, consts, types = {}, {}, set()
+    raw = []          # every constant with the number it was given and what the specification needs to re-compute that
 
     def conv(a):
         k = a["k"]
@@ -446,6 +461,7 @@ def abstract_pair(p, q):
                         raise KeyError("constants")
                     consts[d] = [1, 2, 0, 3][len(consts)]
                 out.append(IP.I(consts[d]))
+                raw.append(raw_const(consts[d], d, i, a["type"] if canon is not None else None))
             return IP.cmp_(paths[pk], a["op"], {"t": "list", "items": out} if a["const"]["t"] == "list" else out[0], a["neg"], "a")
         if k in ("paren", "obs"):
             return {"k": k, "e": conv(a["e"])}
@@ -458,6 +474,7 @@ def abstract_pair(p, q):
         return None
     if len(types) != 1 or not (IP.in_vocab(pa) and IP.in_vocab(qa)):
         return None
+    abstract_pair.last_consts = raw
     return pa, qa
 
 
@@ -513,7 +530,7 @@ def constant_kind_lines(chk, quick):
                     lines.append({"kind": "pair", "p": {"k": "x"}, "q": {"k": "x"}, "verdict": v, "exc": exc, "invocab": False, "expect": "none", "how": how, "tp": tp, "tq": tq})
                 else:
                     lines.append({"kind": "pair", "p": IP.to_spec(ab[0]), "q": IP.to_spec(ab[1]), "verdict": v, "exc": exc, "invocab": True, "expect": "none", "how": how, "tp": tp, "tq": tq,
-                                  "renamed": [IP.render(ab[0]), IP.render(ab[1])]})
+                                  "renamed": [IP.render(ab[0]), IP.render(ab[1])], "consts": list(abstract_pair.last_consts)})
     chk.stages["S3_constant_kinds"] = {"pairs": n}
     return lines
 
@@ -602,13 +619,16 @@ def run(chk):
     import collections
     for ln in lines:
         chk.case([ln["kind"], ln.get("how", ""), ln.get("verdict"), ln.get("invocab"), ln.get("exc", "none")])
-    keep = ("kind", "p", "q", "verdict", "invocab", "expect", "refl", "sym", "trans", "find_ok", "exc")
+    keep = ("kind", "p", "q", "verdict", "invocab", "expect", "refl", "sym", "trans", "find_ok", "exc", "consts")
     slim = [{k: ln[k] for k in keep if k in ln} for ln in lines]
     rejected = set()
     for r in common.validate_trace_parallel(chk, "Trace_Patterns", "Trace_Patterns", slim, "S3_code_to_spec", jobs=12, chunk=300):
         rejected.add(r[0] - 1)
         if r[2].startswith(PREFIX):
             report(chk, lines[r[0] - 1], r[2], "S3")
+        elif r[2].startswith("HARNESS:"):
+            chk.machinery("the specification does not confirm the harness's renaming of constants: %s | %s" % (lines[r[0] - 1].get("tp"), lines[r[0] - 1].get("tq")))
+    chk.stages["S3_constant_kinds"] = dict(chk.stages.get("S3_constant_kinds", {}), renamings_recomputed_by_the_specification=sum(1 for ln in lines if "consts" in ln))
     chk.sample({"pair": {k: v for k, v in next(l for l in lines if l["kind"] == "pair" and l["invocab"]).items()}})
     chk.sample({"norm": {k: v for k, v in next((l for l in lines if l["kind"] == "norm"), {}).items() if k in ("tp", "tq")}})
     chk.notes["verdicts"] = dict(collections.Counter("%s:%s:%s" % (l["kind"], l.get("expect", "-"), l.get("verdict", "-")) for l in lines))
@@ -617,9 +637,14 @@ def run(chk):
     if len(good) >= 6:
         good[2] = {"kind": "pair", "p": IP.to_spec({"k": "obs", "e": IP.cmp_("b", "=", IP.I(1))}), "q": IP.to_spec({"k": "obs", "e": IP.cmp_("b", "=", IP.I(2))}),
                    "verdict": True, "invocab": True, "expect": "none", "exc": "none"}      # two different patterns claimed equivalent
+        withc = next((json.loads(json.dumps({k: x[k] for k in keep if k in x})) for i, x in enumerate(lines) if i not in rejected and len(x.get("consts", [])) >= 2
+                      and len({c["id"] for c in x["consts"]}) >= 2 and any(c["kind"] == "cidr" for c in x["consts"])), None)
+        if withc is not None:
+            withc["consts"][1]["id"] = withc["consts"][0]["id"]             # two different values claimed to be the same one
+            good.append(withc)
         rej = common.validate_trace(chk, "Trace_Patterns", "Trace_Patterns", good, "S4_selftest", count=False)
         hit = sorted({r[0] for r in rej})
-        ok4 = hit == [3]
+        ok4 = hit == ([3, len(good)] if withc is not None else [3])
         chk.notes["binding_selftest"] = {"corrupted_lines": 1, "rejected_lines": len(hit), "ok": ok4}
         if not ok4:
             chk.machinery("binding self-test failed: %r" % (rej,))
